@@ -84,18 +84,28 @@ pub fn check_case(c: &RedirCase, obs: &mut Obs) -> Result<(), String> {
     let all: Vec<Resource> = c.resources.iter().enumerate().map(|(i, r)| to_resource(i, r)).collect();
     let k0 = c.initial.min(all.len());
     let mut engine = build_engine(&c.rules, false, false, &all[..k0]);
-    check_with(c, obs, &engine, &all[..k0])?;
+    check_with(c, obs, &|q| Verdict::of(&engine.check_network_request(q)), "", &all[..k0])?;
     for k in k0..all.len() {
         let _ = engine.add_resource(all[k].clone());
         obs.label("add_resource-then-recheck");
-        check_with(c, obs, &engine, &all[..=k])?;
+        check_with(c, obs, &|q| Verdict::of(&engine.check_network_request(q)), "", &all[..=k])?;
+    }
+    // the same rules added one at a time to a Blocker (full store)
+    let mut refused = vec![];
+    if let Some(b) = incremental_blocker(&c.rules, std_opts(), &[], &mut refused) {
+        // the store model: first add wins, invalid resources are rejected
+        let mut store = adblock::resources::ResourceStorage::default();
+        for r in &all {
+            let _ = store.add_resource(r.clone());
+        }
+        obs.label("incremental-blocker");
+        check_with(c, obs, &|q| Verdict::of(&b.check(q, &store)), " [rules added one at a time with Blocker::add_filter]", &all)?;
     }
     Ok(())
 }
 
-fn check_with(c: &RedirCase, obs: &mut Obs, engine: &adblock::Engine, res: &[Resource]) -> Result<(), String> {
+fn check_with(c: &RedirCase, obs: &mut Obs, ask: &dyn Fn(&adblock::request::Request) -> Verdict, how: &str, res: &[Resource]) -> Result<(), String> {
     let res: Vec<Resource> = res.to_vec();
-    let engine = engine;
     let parsed = parse_network(&c.rules);
     let active = active_rules(&parsed);
     let tags = HashSet::new();
@@ -104,7 +114,7 @@ fn check_with(c: &RedirCase, obs: &mut Obs, engine: &adblock::Engine, res: &[Res
         obs.inner_evals += 1;
         let hits = hits_of(&active, &req);
         let spec = combine(&hits, &tags, &req, &r.url, &res);
-        let got = Verdict::of(&engine.check_network_request(&req));
+        let got = ask(&req);
         let cands: Vec<&&Parsed> = hits.iter().filter(|p| p.f.is_redirect() && !p.f.is_exception()).collect();
         let excs = hits.iter().filter(|p| p.f.is_redirect() && p.f.is_exception()).count();
         let prios: HashSet<i32> = cands.iter().filter_map(|p| p.f.modifier_option.as_deref()).map(|o| split_priority(o).1).collect();
@@ -128,12 +138,12 @@ fn check_with(c: &RedirCase, obs: &mut Obs, engine: &adblock::Engine, res: &[Res
         }
         if !spec.redirect.contains(&got.redirect) {
             return Err(format!(
-                "request {:?}: redirect {:?} is not one of the acceptable answers {:?} (matching redirect rules: {:?})",
-                r, got.redirect, spec.redirect, hits.iter().filter(|p| p.f.is_redirect()).map(|p| p.line.as_str()).collect::<Vec<_>>()
+                "request {:?}{}: redirect {:?} is not one of the acceptable answers {:?} (matching redirect rules: {:?})",
+                r, how, got.redirect, spec.redirect, hits.iter().filter(|p| p.f.is_redirect()).map(|p| p.line.as_str()).collect::<Vec<_>>()
             ));
         }
         if spec.matched != got.matched || spec.important != got.important || spec.exception != got.exception {
-            return Err(format!("request {:?}: blocked/important/exception spec {}/{}/{} engine {}/{}/{}", r, spec.matched, spec.important, spec.exception, got.matched, got.important, got.exception));
+            return Err(format!("request {:?}{}: blocked/important/exception spec {}/{}/{} engine {}/{}/{}", r, how, spec.matched, spec.important, spec.exception, got.matched, got.important, got.exception));
         }
         // a resource that requires any permission is never served as a redirect
         if let Some(d) = &got.redirect {
@@ -198,7 +208,7 @@ pub fn decode(t: &mut Tape) -> RedirCase {
 }
 
 pub fn check(ctx: &mut Ctx) {
-    ctx.rule = "1-8 redirect / redirect-rule / @@..$redirect[-rule] rules on 11 overlapping patterns with priority suffixes (none, 0, equal, negative, +n, overflowing, :abc, trailing ':', double ':'), optional extra options, plus plain/exception/important rules; resource stores of 0-6 resources (names and aliases from a pool of 10 so clashes happen, all 12 mime types + template, permission 0 / non-zero, invalid base64); 1-5 requests; in half of the cases only a prefix of the store is loaded at first and the remaining resources are added one at a time with add_resource(), all requests being re-checked after each. Oracle: candidates = matching non-exception redirect rules (per-rule matcher) whose resource name is not named by a matching redirect exception; winners = maximal priority; acceptable = data URL of each winner under an independent resource-store model (first add wins, validation, redirectable kind, permission 0). Non-trivial = >= 2 candidates with different priorities, or an exception present beside >= 2 candidates.".into();
+    ctx.rule = "1-8 redirect / redirect-rule / @@..$redirect[-rule] rules on 11 overlapping patterns with priority suffixes (none, 0, equal, negative, +n, overflowing, :abc, trailing ':', double ':'), optional extra options, plus plain/exception/important rules; resource stores of 0-6 resources (names and aliases from a pool of 10 so clashes happen, all 12 mime types + template, permission 0 / non-zero, invalid base64); 1-5 requests; in half of the cases only a prefix of the store is loaded at first and the remaining resources are added one at a time with add_resource(), all requests being re-checked after each; finally the same rules are added one at a time to a Blocker (add_filter) and checked against the full store. Oracle: candidates = matching non-exception redirect rules (per-rule matcher) whose resource name is not named by a matching redirect exception; winners = maximal priority; acceptable = data URL of each winner under an independent resource-store model (first add wins, validation, redirectable kind, permission 0). Non-trivial = >= 2 candidates with different priorities, or an exception present beside >= 2 candidates.".into();
     ctx.assumptions = vec!["which rules match is decided by NetworkFilter::matches (C02/C03 check that); priority ties leave the choice free".into()];
     let n = ctx.tier.pick(600_000, 5_000_000);
     drive(ctx, "redirect", n, 300, &decode, &check_case);
